@@ -1388,6 +1388,38 @@ def gen_history(rng, allow_dirty, size='small', allow_backward=True):
     return logs, ops
 
 
+RESTART_CALLS = [1, 2, 3, 5, 9, 10, 11, 12, 12, 12, 13, 13, 14, 21]
+RESTART_LOGNAMES = ['log.lammps', 'log.lammps', 'md.log', 'relax-2.lammps', 'log', 'run.10.out']
+
+
+def _plain(text):
+    """printable ASCII, blanks, tabs and \\n only: what survives the text-mode pipe of subprocess unchanged."""
+    return all(32 <= ord(c) < 127 or c in '\n\t' for c in text)
+
+
+def gen_restart_history(rng, ncalls=None):
+    """a simulation continued `ncalls - 1` times in one directory through atomman.lammps.run(..., restart_script=...): op
+    ['runcall', k, screen, how, logfile] calls run() with a stand-in executable that writes log k as the log of that call
+    (to the logfile and, unless screen is off, to the screen); `how`: scripts given as text or as files.  The Log that a
+    call returns is the history's Log from then on (flatten / further reads act on it)."""
+    n = ncalls or rng.choice(RESTART_CALLS)
+    lname = rng.choice(RESTART_LOGNAMES)
+    how = rng.choice(['text', 'file'])
+    logs, ops = [], []
+    for j in range(n):
+        S = gen_log(rng, nruns=rng.choice([1, 1, 1, 2, 0, 3]), size='small', allow_dirty=False)
+        text = S.text()
+        logs.append({'text': text, 'expect': expect_of(S)})
+        ops.append(['runcall', j, _plain(text) and rng.random() < 0.4, how, lname])
+        if rng.random() < 0.12:
+            ops.append(['flatten', rng.choice(['first', 'last', 'all', None]), None, None, 'min'])
+    if rng.random() < 0.3:          # the caller reads one more log into the Log he was handed
+        ops.append(['read', rng.randrange(n), rng.choice([None, True]), rng.choice(['text', 'path']), False, None, 'kw'])
+    if rng.random() < 0.5:
+        ops.append(['flatten', rng.choice(['first', 'last', 'all']), None, None, 'min'])
+    return logs, ops
+
+
 def op_input(op):
     """(log index, append or None for the constructor, mode, reuse, pre) of a ctor/read op (old replays carry neither
     `reuse` nor `pre`)."""
@@ -1443,6 +1475,38 @@ class _Files:
         with open(p, 'wb') as f:
             f.write(text.encode('utf-8'))
         return p
+
+    STANDIN = """#!/bin/sh
+# stand-in for a LAMMPS executable: the input script (stdin or -in file) names the file whose content is the log of this run
+log=log.lammps; screen=1; in=
+while [ $# -gt 0 ]; do
+  case "$1" in
+    -log) log="$2"; shift;;
+    -in) in="$2"; shift;;
+    -screen) [ "$2" = none ] && screen=0; shift;;
+    -suffix) shift;;
+  esac
+  shift
+done
+if [ -n "$in" ]; then src=$(sed -n 's/^# log-source //p' "$in"); else src=$(sed -n 's/^# log-source //p'); fi
+[ -f "$src" ] || { echo "ERROR: no log source" ; exit 1; }
+[ "$log" != none ] && cat "$src" > "$log"
+[ $screen = 1 ] && cat "$src"
+exit 0
+"""
+
+    def rundir(self):
+        """a fresh directory for one simulation + the stand-in executable (one per _Files)."""
+        import stat
+        exe = os.path.join(self.dir, 'lmp_standin')
+        if not os.path.exists(exe):
+            with open(exe, 'w') as f:
+                f.write(self.STANDIN)
+            os.chmod(exe, os.stat(exe).st_mode | stat.S_IEXEC)
+        self.n += 1
+        d = os.path.join(self.dir, f'sim{self.n}')
+        os.mkdir(d)
+        return exe, d
 
     def close(self):
         import shutil
@@ -1515,6 +1579,8 @@ def run_impl(logs, ops, files):
     # after the caller dropped a row of a record, a column may hold numbers as text for a reason that is gone (the junk
     # token was in the dropped row): from then on the tables of this Log are compared by value only
     pristine = True
+    runs_done = []          # logs written by the runcall ops so far (one directory per history)
+    simdir = None
 
     def fresh_log(notes):
         lg = lmp.Log()
@@ -1569,6 +1635,34 @@ def run_impl(logs, ops, files):
                             if f.read() != text.encode('utf-8'):
                                 notes.append('the file whose path was handed to the read was changed by it')
                     out.append(('state', impl_state(log, pristine), tell, notes))
+                elif op[0] == 'runcall':
+                    k, screen, how, lname = op[1], bool(op[2]), op[3], op[4]
+                    if simdir is None:
+                        simdir = files.rundir()
+                    exe, d = simdir
+                    srcp = os.path.join(d, f'source_{len(runs_done)}.txt')
+                    with open(srcp, 'wb') as f:
+                        f.write(logs[k]['text'].encode('utf-8'))
+                    scripts = ['# start\n# log-source ' + srcp + '\n', '# restart\n# log-source ' + srcp + '\n']
+                    kw = {'logfile': lname, 'screen': screen}
+                    if lname == 'log.lammps' and len(runs_done) % 2:
+                        del kw['logfile']                   # the documented default
+                    cwd = os.getcwd()
+                    os.chdir(d)
+                    try:
+                        if how == 'file':
+                            for nm_, sc_ in zip(('in.start', 'in.restart'), scripts):
+                                with open(nm_, 'w') as f:
+                                    f.write(sc_)
+                            kw.update(script_name='in.start', restart_script_name='in.restart')
+                        else:
+                            kw.update(script=scripts[0], restart_script=scripts[1])
+                        log = lmp.run(exe, **kw)
+                    finally:
+                        os.chdir(cwd)
+                    runs_done.append(k)
+                    pristine = True
+                    out.append(('state', impl_state(log, pristine), None, []))
                 elif op[0] == 'droprow':
                     j = op[1]
                     if log is None:
@@ -1649,8 +1743,19 @@ def model_requests(logs, ops):
     where = []
     ids = {}
     nid = 0
+    runs_done = []
     for op in ops:
-        if op[0] in ('ctor', 'read'):
+        if op[0] == 'runcall':
+            # run() on restart: a new Log, the renamed old logs read from their files in the order they were written,
+            # then the current one (from the screen text or from the logfile)
+            req.append('new')
+            for k_ in runs_done:
+                req.append('read 1 ' + ' '.join(enc(l) for l in logs[k_]['text'].split('\n')))
+            text = logs[op[1]]['text']
+            req.append(('readt 1 ' + enc(text)) if op[2] else ('read 1 ' + ' '.join(enc(l) for l in text.split('\n'))))
+            where.append(len(req) - 1)
+            runs_done.append(op[1])
+        elif op[0] in ('ctor', 'read'):
             k, append, mode, reuse, pre = op_input(op)
             text = logs[k]['text']
             if op[0] == 'ctor':
@@ -1752,6 +1857,8 @@ def correspond(ctx):
             logs, ops = gen_history(rng, allow_dirty=(it % 4 == 3), size=size)
             hist.append((logs, ops))
         hist += [(l, o) for l, o in _malformed_histories(rng)]
+        hist += [gen_restart_history(rng) for _ in range(ctx.n(5, 40))]
+        hist.append(gen_restart_history(rng, 12 + rng.randrange(3)))
         reqs = []
         for logs, ops in hist:
             reqs.append(model_requests(logs, ops))
@@ -1984,6 +2091,29 @@ def check_history_clauses(logs, ops, impl_out):
             bad = _state_clauses(k, st, cur)
             if bad:
                 return bad
+        elif op[0] == 'runcall':
+            done = [o[1] for o in ops[:k] if o[0] == 'runcall'] + [op[1]]
+            cur = {'version': None, 'date': None, 'runs': []}
+            for kk in done:         # reading a further log appends its runs after the existing ones
+                e = logs[kk]['expect']
+                cur = {'version': cur['version'] if cur['version'] is not None else e['version'],
+                       'date': cur['date'] if cur['version'] is not None else e['date'],
+                       'runs': cur['runs'] + e['runs']}
+            how = (f'op {k}: call {len(done)} of atomman.lammps.run(<stand-in executable writing log {op[1]}>, '
+                   f'{"script_name=, restart_script_name=" if op[3] == "file" else "script=, restart_script="}, logfile={op[4]!r}, '
+                   f'screen={bool(op[2])}) in one directory (logs written by the calls so far: {done})')
+            if res[0] == 'err':
+                return 'run:raises', how + f' raised {res[2]}'
+            st = res[1]
+            if len(st['sims']) != len(cur['runs']):
+                first = [(_show(t[1][0][t[0].index('Step')]) if 'Step' in t[0] and t[1] else None) for t, _ in st['sims']]
+                return 'run:restart-append', (how + f': the returned Log has {len(st["sims"])} simulation records, expected '
+                                              f'{len(cur["runs"])}: the runs of the {len(done) - 1} earlier logs in the order they '
+                                              f'were written, then those of the current one ({[len(logs[kk]["expect"]["runs"]) for kk in done]} '
+                                              f'runs per log); first Step of the records returned: {first}')
+            bad = _state_clauses(k, st, cur)
+            if bad:
+                return 'run:' + bad[0].split(':')[1], how + ': the returned Log: ' + bad[1]
         elif op[0] == 'droprow':
             if cur is None:
                 cur = {'version': None, 'date': None, 'runs': []}
@@ -2058,6 +2188,11 @@ def search(ctx, broken):
         for it in range(N):
             size = 'huge' if it % 400 == 57 else 'big' if it % 50 == 49 else 'small'
             logs, ops = gen_history(rng, allow_dirty=False, size=size, allow_backward=(it % 5 == 4))
+            if it % 50 == 8:
+                # a simulation restarted again and again through atomman.lammps.run (always one of >= 12 calls per run;
+                # thorough: one of 102 calls)
+                logs, ops = gen_restart_history(rng, (102 if ctx.thorough and it == 58 else 12 + rng.randrange(3))
+                                                if it % 200 == 58 else None)
             logs0, ops0 = logs, ops
             impl_out = run_impl(logs, ops, files)
             bad = check_history_clauses(logs, ops, impl_out)
